@@ -329,9 +329,9 @@ def fam_duplex(rng, tier):
             wv = rng.choice([0, 1, 2, 3, 4])
             # reader first, writer second, then ONE byte arrives: the reader must return while
             # the writer is still blocked; only then does the peer drain
-            thr = [[(rd, 0, 1, 0), (O_BARRIER, 0, 2, 0)],
+            thr = [[(rd, 0, 1, 0), (O_BARRIER, 0, 0, 2)],
                    [(O_SLEEP, 0, 40, 0), (O_WRITE_ALL, 0, n, wv)],
-                   [(O_SLEEP, 0, 110, 0), (O_WRITE, 1, 1, 0), (O_BARRIER, 0, 2, 0), (O_READ_ALL, 1, n, rng.choice([0, 1, 2]))]]
+                   [(O_SLEEP, 0, 110, 0), (O_WRITE, 1, 1, 0), (O_BARRIER, 0, 0, 2), (O_READ_ALL, 1, n, rng.choice([0, 1, 2]))]]
             res.append(Script("duplex", [kind], thr, timeout=3000, note="reader-first"))
             # writer first (buffer full), reader second, then the peer drains: the writer must
             # resume to deliver the rest; afterwards one byte releases the reader
